@@ -53,3 +53,11 @@ def codec_union_runs_member_hooks_speculatively(v):
     attempt (never fewer times)."""
     f = v.get("facts", {})
     return bool(f.get("codec")) and bool(f.get("union_member_speculation")) and f.get("kind") == "count" and "serialize-trace" in v.get("sig", "")
+
+
+@predicate
+def schema_of_self_referencing_dataclass(v):
+    """F16: build_json_schema has no in-progress marker / reference for a dataclass reachable from itself
+    (directly, through a collection, mutually, or via Self): unbounded recursion (RecursionError), or TypeError for Self."""
+    f = v.get("facts", {})
+    return f.get("kind") == "recursive" and f.get("exc") in ("RecursionError", "TypeError")
